@@ -20,7 +20,7 @@ CASE_TIMEOUT = 120
 
 KINDS = ["complex_dtype", "nontext_name", "duplicate_name", "none_in_required", "bad_object_encoding", "append_diff_columns",
          "append_diff_dtype", "append_diff_scheme", "append_diff_partitioning", "append_unencodable_value", "unknown_column_read",
-         "unknown_column_filter", "unknown_codec", "bad_times", "append_extra_column", "append_missing_column", "na_in_required_int", "extension_object_dtype"]
+         "unknown_column_filter", "unknown_codec", "bad_times", "append_extra_column", "append_missing_column", "na_in_required_int", "extension_object_dtype", "unknown_column_categories"]
 STATES = ["simple", "hive", "hive_part"]
 
 
@@ -48,12 +48,22 @@ def gen_cases(tier, seed):
         k += 1
         cases.append({"id": "H/%s/%s/%s/%d" % (kind, pos, state, rows), "kind": kind, "pos": pos, "rgpos": "later", "state": state, "nrg": 2, "mode": "append",
                       "seed": 2100 + k, "rows": 12, "new_rows": rows, "reuse_handle": True})
+    # remove_row_groups given a row group the dataset does not have (next to ones it has): refused; the handle is then used again
+    for state, nrg in itertools.product(["hive", "hive_part"], [3, 4]):
+        k += 1
+        cases.append({"id": "RM/%s/%d" % (state, nrg), "kind": "remove_with_unknown_row_group", "pos": "middle", "rgpos": "later", "state": state, "nrg": nrg, "mode": "append",
+                      "seed": 2800 + k, "rows": 24, "new_rows": 6, "reuse_handle": True})
+    # python integers in an object column declared INT32 (object_encoding='int32'): a value outside int32 cannot be encoded as declared
+    for state, mode, val in itertools.product(STATES, ["append", "rewrite"], [2 ** 31, -2 ** 31 - 1, 2 ** 40 + 7]):
+        k += 1
+        cases.append({"id": "I32/%s/%s/%d" % (state, mode, val), "kind": "int32_object_overflow", "pos": "last", "rgpos": "later", "state": state, "nrg": 2, "mode": mode,
+                      "seed": 2700 + k, "rows": 12, "big_value": val})
     # the append is given as an ITERABLE of frames (documented for ParquetFile.write_row_groups): the source breaks down after k frames, or a
     # later frame lacks a column - whatever the exception, it is a refused operation
-    for kind, state, after in itertools.product(["append_iterable_source_fails", "append_iterable_frame_lacks_column"], STATES, [0, 1, 2]):
+    for kind, state, after in itertools.product(["append_iterable_source_fails", "append_iterable_frame_lacks_column", "append_iterable_frame_has_extra_column"], STATES, [0, 1, 2]):
         k += 1
         cases.append({"id": "IT/%s/%s/%d" % (kind, state, after), "kind": kind, "pos": "middle", "rgpos": "later", "state": state, "nrg": 2, "mode": "append",
-                      "seed": 2500 + k, "rows": 20, "frames_before_failure": after})
+                      "seed": 2500 + k, "rows": 20, "frames_before_failure": after, "reuse_handle": True})
     # the existing dataset has a history: row groups were removed from it earlier, so the part numbers in use have gaps
     for kind, pos, state, gap in itertools.product(["append_unencodable_value", "none_in_required", "na_in_required_int", "unknown_codec", "append_diff_columns"],
                                                    ["first", "last"], ["hive", "hive_part"], [[1], [0, 2], [0]]):
@@ -152,6 +162,10 @@ def make_bad(case, df, rng):
     return bad, kw
 
 
+class _SourceBroke(Exception):
+    """An exception of the caller's own making."""
+
+
 def run_case(case):
     import pandas as pd
     import fastparquet
@@ -164,6 +178,11 @@ def run_case(case):
     scheme = "simple" if state == "simple" else "hive"
     n = case.get("rows", 12)
     df0 = base_frame(rng, n, 0, part, case["pos"])
+    if case["kind"] == "int32_object_overflow":
+        nn_ = np.empty(n, dtype=object)
+        nn_[:] = [int(x) for x in rng.integers(-1000, 1000, n)]
+        nn_[1] = None
+        df0["n"] = nn_
     if case["kind"] == "na_in_required_int":
         mdt = ["Int64", "Int32", "UInt16", "Int8"][case["seed"] % 4]
         case = dict(case, has_nulls_mode=[False, "infer"][(case["seed"] // 4) % 2])
@@ -178,8 +197,14 @@ def run_case(case):
         base_kw["row_group_offsets"] = max(1, n // case["nrg"])
     if case["kind"] == "na_in_required_int":
         base_kw["has_nulls"] = case["has_nulls_mode"]
+    if case["kind"] == "int32_object_overflow":
+        base_kw["object_encoding"] = dict({str(c_): "infer" for c_ in df0.columns}, n="int32", s="utf8")
     try:
         fastparquet.write(path, df0, **base_kw)
+        if case["kind"] == "unknown_column_categories":
+            # (without pandas metadata, as for files of other writers: there the request is not checked against recorded categoricals)
+            from fastparquet.writer import update_file_custom_metadata
+            update_file_custom_metadata(path if os.path.isfile(path) else os.path.join(path, "_metadata"), {"pandas": None})
         if case.get("removed_before"):
             pf_ = fastparquet.ParquetFile(path)
             rgs_ = [pf_.row_groups[i_] for i_ in case["removed_before"] if i_ < len(pf_.row_groups) - 1]
@@ -200,9 +225,11 @@ def run_case(case):
         returned = False
         with fsmon.Audit(path) as aud:
             try:
-                if kind in ("unknown_column_read", "unknown_column_filter"):
+                if kind in ("unknown_column_read", "unknown_column_filter", "unknown_column_categories"):
                     pf = fastparquet.ParquetFile(path)
-                    if kind == "unknown_column_read":
+                    if kind == "unknown_column_categories":
+                        pf.to_pandas(categories={"nope": 5} if case["pos"] != "last" else ["nope"])
+                    elif kind == "unknown_column_read":
                         pf.to_pandas(columns=["rid", "nope"])
                     else:
                         # the unknown column first / in the middle of an AND group / in a later OR group
@@ -215,22 +242,42 @@ def run_case(case):
                             pf.to_pandas(filters=flt)
                     returned = True
                 else:
-                    bad, kw = make_bad(case, new, rng) if not kind.startswith("append_iterable_") else (new, {})
+                    if kind == "int32_object_overflow":
+                        nn_ = np.empty(n_new, dtype=object)
+                        nn_[:] = [int(x) for x in rng.integers(-1000, 1000, n_new)]
+                        nn_[n_new - 1] = case["big_value"]
+                        new["n"] = nn_
+                        counters["int32_object_overflows_tried"] = 1
+                    bad, kw = make_bad(case, new, rng) if not kind.startswith(("append_iterable_", "int32_object_", "remove_with_")) else (new, {})
                     kws = dict(base_kw)
                     kws.update(kw)
                     if case["mode"] == "append":
                         kws["append"] = True
                     if case["nrg"] > 1:
                         kws["row_group_offsets"] = max(1, n_new // 2)
-                    if kind.startswith("append_iterable_"):
+                    if kind == "remove_with_unknown_row_group":
+                        import copy as _copy
+                        kept = fastparquet.ParquetFile(path)
+                        ghost = _copy.deepcopy(kept.row_groups[-1])
+                        ghost.num_rows = ghost.num_rows + 1
+                        counters["removals_naming_an_unknown_row_group"] = 1
+                        kept.remove_row_groups([kept.row_groups[0], ghost])
+                    elif kind.startswith("append_iterable_"):
                         def frames_():
                             for j_ in range(case["frames_before_failure"]):
                                 yield base_frame(rng, 6, 10 ** 5 + 10 * j_, part, case["pos"])
                             if kind == "append_iterable_source_fails":
-                                raise ConnectionResetError("the source of the frames broke down")
-                            yield base_frame(rng, 6, 10 ** 6, part, case["pos"]).drop(columns=["a"])
+                                # (whatever the exception is: an I/O error class, or one the library has never heard of)
+                                raise (ConnectionResetError if case["frames_before_failure"] % 2 else _SourceBroke)("the source of the frames broke down")
+                            odd_ = base_frame(rng, 6, 10 ** 6, part, case["pos"])
+                            if kind == "append_iterable_frame_has_extra_column":
+                                odd_["extra_col"] = 1.5
+                                yield odd_
+                            else:
+                                yield odd_.drop(columns=["a"])
                         counters["appends_from_iterables"] = 1
-                        fastparquet.ParquetFile(path).write_row_groups(frames_())
+                        kept = fastparquet.ParquetFile(path)       # (used again after the refusal, see reuse_handle)
+                        kept.write_row_groups(frames_())
                     elif case.get("reuse_handle"):
                         kept = fastparquet.ParquetFile(path)
                         bad_r = bad.reset_index(drop=True)
@@ -321,14 +368,28 @@ def run_case(case):
                 good = base_frame(rng, 5, 10 ** 6, part, case["pos"])
                 if kind == "na_in_required_int":
                     good.insert(list(df0.columns).index("m"), "m", pd.array(np.arange(5), dtype=df0["m"].dtype))
-                kept.write_row_groups(good)
+                if kind == "remove_with_unknown_row_group":
+                    # the next use of the handle is a removal it can do
+                    gone_ = fastparquet.ParquetFile(path)[1:2].to_pandas(index=False)["rid"].tolist()
+                    kept.remove_row_groups([kept.row_groups[1]])
+                    good = good.iloc[0:0]
+                    before_rids_ = [r_ for r_ in before_tab["rid"].tolist() if r_ not in set(gone_)]
+                else:
+                    kept.write_row_groups(good)
+                    before_rids_ = before_tab["rid"].tolist()
                 after2 = fastparquet.ParquetFile(path).to_pandas(index=False)
-                want = sorted(before_tab["rid"].tolist() + good["rid"].tolist())
+                want = sorted(before_rids_ + good["rid"].tolist())
                 got_r = sorted(int(x) for x in after2["rid"].tolist())
                 counters["kept_handle_followups"] = counters.get("kept_handle_followups", 0) + 1
                 if got_r != want:
                     res["failures"].append({"kind": "rows_of_refused_frame_persisted_by_later_append", "unexpected": sorted(set(got_r) - set(want))[:6],
                                             "missing": sorted(set(want) - set(got_r))[:6], **ctx})
+                # the footer written by that later append describes the file (row count = sum over its row groups, ...)
+                from vf.ref import reader as R_
+                top_ = path if os.path.isfile(path) else os.path.join(path, "_metadata")
+                for code, where, detail in R_.read_file(top_, data_dir=os.path.dirname(top_), check_pages=False).diags:
+                    res["failures"].append({"kind": "footer_invalid_after_append_following_a_refusal", "code": code, "where": where, "detail": detail[:100], **ctx})
+                counters["footers_validated_after_followup"] = counters.get("footers_validated_after_followup", 0) + 1
             except Exception as e:
                 res["failures"].append({"kind": "append_through_kept_handle_after_refusal_raised", **ctx, **C.exc_shape(e)})
         res["outcome"] = "ok"
@@ -342,4 +403,4 @@ def run_case(case):
 
 
 def required(tier):
-    return {"rejected": 300, "snapshots_compared": 300, "datasets_with_removed_row_groups": 20, "appends_from_iterables": 12}
+    return {"rejected": 300, "snapshots_compared": 300, "datasets_with_removed_row_groups": 20, "appends_from_iterables": 12, "int32_object_overflows_tried": 10, "footers_validated_after_followup": 10, "removals_naming_an_unknown_row_group": 3}
